@@ -15,7 +15,8 @@ from common import dec_str, enc_str
 
 
 def run(chk, replay=None):
-    chk.rule = ('as C01, plus trees/strings containing discouraged code points; the oracle compares the expat infoset with the '
+    chk.rule = ('as C01 (incl. all 1,114,112 code points in bulk, reference look-alikes, long strings with special tokens around the '
+                'block boundaries 2^k), plus trees/strings containing discouraged code points; the oracle compares the expat infoset with the '
                 'canonicalised in-memory tree; non-trivial = non-empty string / tree with attributes or children')
     if replay is not None:
         inp = replay['input']
@@ -38,6 +39,11 @@ def run(chk, replay=None):
             ok, res = C.wellformed(doc)
             got = None if not ok else (res[3][0][2] if ctx == 'attr' else u''.join(k[1] for k in res[4]))
             print('replay: %r parsed back as %r' % (s, got)); return 0 if got == X.repl_illegal(s) else 1
+        if 'string_document' in inp:
+            C.string_document_one(chk, dec_str(inp['string_document']), want_identity=True)
+            for f in chk.failures:
+                print('replay:', f['sig'], f['case'].get('rendering'), '->', f['detail'][:300])
+            print('replay: %d stream(s) of the document differ from the tree' % len(chk.failures)); return 1 if chk.failures else 0
         if 'first_render' in inp:
             C.first_render_one(chk, inp['first_render'])
             for f in chk.failures:
@@ -57,6 +63,10 @@ def run(chk, replay=None):
             chk.case(('kf', ctx, s))
             if got != s:
                 chk.fail('discouraged-codepoint', {'context': ctx, 's': enc_str(s)}, 'parsed back as %r' % (got,))
+    C.all_codepoints_oracle(chk, fs, want_identity=True)
+    C.reference_lookalikes_check(chk, drv, fs, want_identity=True)
+    C.boundary_strings_check(chk, drv, fs, want_identity=True)
+    C.boundary_trees_check(chk, drv, want_identity=True)
     C.adjacent_nodes_check(chk, drv, want_identity=True)
     C.trees_check(chk, drv, want_identity=True, discouraged=True)
     C.extreme_trees_check(chk, drv, want_identity=True)
